@@ -55,6 +55,9 @@ ErrOf(cls) == CASE cls = "einvalcoords" -> "NC_EINVALCOORDS"
                 [] cls = "eiomismatch"  -> "NC_EIOMISMATCH"
                 [] OTHER                -> "NC_NOERR"
 IsInv(a) == a.cls \notin {"valid", "zero"}
+(* a valid request one of whose values is not representable in the variable's type: the call reports NC_ERANGE, the
+   element receives the fill value, everything else -- the record count in particular -- is as for NC_NOERR *)
+RcOfArg(a) == IF "erange" \in DOMAIN a /\ a.cls = "valid" THEN "NC_ERANGE" ELSE ErrOf(a.cls)
 
 (* writes of one step: set of [rec, tok] (tok is one record's token sequence) *)
 Apply(rw, W) == AsSeq([i \in 1..MaxRec |-> IF \E w \in W : w.rec = i - 1
@@ -75,7 +78,7 @@ CollPut(A, rc) ==
          THEN \* safe mode: every rank returns one and the same error of those present; nothing is transferred
               /\ \E q \in inv : \A p \in Ranks : rc[p] = ErrOf(A[q].cls)
               /\ UNCHANGED state
-         ELSE /\ \A p \in Ranks : rc[p] = ErrOf(A[p].cls)          \* errors stay local
+         ELSE /\ \A p \in Ranks : rc[p] = RcOfArg(A[p])          \* errors stay local
               /\ LET W == UNION {WritesOf(A[p]) : p \in Ranks}
                      h == Max(highest, SetMax({0} \cup {TopOf(A[p]) : p \in Ranks}))
                  IN /\ rows' = Apply(rows, W)
@@ -97,7 +100,7 @@ CollGet(A, rc) ==
 
 IndepPut(p, a, rc) ==
     /\ indep
-    /\ rc = ErrOf(a.cls)
+    /\ rc = RcOfArg(a)
     /\ rows' = Apply(rows, WritesOf(a))
     /\ highest' = Max(highest, TopOf(a))
     /\ numrecs' = [numrecs EXCEPT ![p] = Max(@, TopOf(a))]
